@@ -35,7 +35,9 @@ PC(key, b) == [k |-> "pc", key |-> key, body |-> b]
 Obs == Pr(Elvis(EVar("x"), ES("U")))
 
 Blocks == {"body", "if", "elseif", "else", "case", "default", "foreach", "ifempty", "letc", "pc", "log"}
-Binders == {"letv", "letc", "foreach", "param"}
+\* "letvu" / "paramu": the binder's value is UNDEFINED (an optional param $u
+\* that is not supplied): an undefined binding still shadows the outer name
+Binders == {"letv", "letc", "foreach", "param", "letvu", "paramu"}
 Uses == {"inside", "after", "nextiter", "callee", "calleeall"}
 Shadows == {"none", "param", "outerlet", "loopvar"}
 
@@ -47,6 +49,8 @@ BinderCmds(b, use) ==
   CASE b = "letv" -> <<LetV("x", EI(5))>> \o inner
     [] b = "letc" -> <<LetC("x", <<Text("C")>>)>> \o inner
     [] b = "foreach" -> <<For("x", EList(<<EI(7), EI(8)>>), inner, Opt(FALSE, <<>>))>>
+    [] b = "letvu" -> <<LetV("x", EVar("u"))>> \o inner
+    [] b = "paramu" -> <<Call("n.c", "all", <<PV("x", EVar("u"))>>)>>
     [] OTHER -> <<Call("n.c", "none", <<PV("x", EI(5))>>)>>
 
 \* wrap cmds in the given kind of block
@@ -69,7 +73,7 @@ Descs == {[blk |-> bl, binder |-> bi, use |-> u, shadow |-> s] :
 \* is the combination meaningful?
 Meaningful(d) ==
   /\ (d.use = "nextiter" => d.blk = "foreach")       \* needs an enclosing loop
-  /\ (d.binder = "param" => d.use \in {"inside", "after"})
+  /\ (d.binder \in {"param", "paramu"} => d.use \in {"inside", "after"})
 
 ProgOf(d) ==
   LET blockBody ==
@@ -79,7 +83,8 @@ ProgOf(d) ==
         CASE d.shadow = "outerlet" -> <<LetV("x", EI(2)), Obs>> \o core
           [] d.shadow = "loopvar" -> <<For("x", EList(<<EI(3)>>), core, Opt(FALSE, <<>>))>>
           [] OTHER -> core
-      params == IF d.shadow = "param" THEN <<[name |-> "x", opt |-> FALSE]>> ELSE <<>>
+      params == (IF d.shadow = "param" THEN <<[name |-> "x", opt |-> FALSE]>> ELSE <<>>)
+                \o (IF d.binder \in {"letvu", "paramu"} THEN <<[name |-> "u", opt |-> TRUE]>> ELSE <<>>)
       mbody == (IF d.shadow = "param" THEN <<Obs>> ELSE <<>>) \o withOuter
   IN
   [bundle |->
